@@ -101,23 +101,23 @@ Definition manual : list (string * string * N * N * cover) := [
   ("proto/streams/counts.rs", "dec_num_reset_streams", 3%N, 1%N, ByTheorem "C05_counts_invariant");
   ("proto/streams/store.rs", "insert", 3%N, 1%N, Residual "an id is inserted once: recv/send open paths look the id up first (wp-store: C19)");
   ("proto/streams/store.rs", "try_for_each", 4%N, 1%N, Residual "index below len, re-read every iteration");
-  ("proto/streams/store.rs", "index", 0%N, 1%N, Residual "the stale-key guard itself: panics instead of aliasing (C19)");
-  ("proto/streams/store.rs", "index_mut", 0%N, 1%N, Residual "the stale-key guard itself: panics instead of aliasing (C19)");
+  ("proto/streams/store.rs", "index", 0%N, 1%N, ByTheorem "C19_no_panic");
+  ("proto/streams/store.rs", "index_mut", 0%N, 1%N, ByTheorem "C19_no_panic");
   ("proto/streams/store.rs", "pop", 3%N, 1%N, Residual "intrusive queue linking invariant (wp-store: C19)");
   ("proto/streams/store.rs", "pop", 4%N, 1%N, Residual "intrusive queue linking invariant (wp-store: C19)");
-  ("proto/streams/store.rs", "remove", 3%N, 1%N, Residual "key guard");
+  ("proto/streams/store.rs", "remove", 3%N, 1%N, ByTheorem "C19_no_panic");
   ("proto/streams/state.rs", "send_close", 0%N, 1%N, Residual "callers reach send_close only from a state with an open send half (checked on the real State by the StreamState differential run: RPanic cases)");
   ("proto/streams/prioritize.rs", "new", 5%N, 1%N, Infallible "constants");
   ("proto/streams/prioritize.rs", "reclaim_reserved_capacity", 5%N, 1%N, ByTheorem "C02_flow_code_never_panics");
   ("proto/streams/prioritize.rs", "buffer_pending", 5%N, 1%N, Residual "Codec::buffer refuses only frames above max_frame_size: pop_frame splits DATA to the limit (C12_send_limit_data_enforced); header blocks are split by the encoder");
-  ("proto/streams/prioritize.rs", "reclaim_frame_inner", 0%N, 1%N, Residual "in-flight hand-over protocol (wp-threads/wp-fidelity)");
+  ("proto/streams/prioritize.rs", "reclaim_frame_inner", 0%N, 1%N, ByTheorem "C20_handover_never_panics");
   ("proto/streams/prioritize.rs", "pop_frame", 4%N, 1%N, Residual "queue discipline of pending_send/pending_open");
   ("proto/streams/prioritize.rs", "pop_frame", 1%N, 1%N, Residual "queue discipline of pending_send/pending_open");
   ("proto/streams/buffer.rs", "pop_front", 3%N, 1%N, Residual "slab deque linking invariant");
   ("proto/streams/buffer.rs", "pop_front", 4%N, 1%N, Residual "slab deque linking invariant");
   ("proto/streams/stream.rs", "new", 5%N, 1%N, Infallible "initial window sizes were validated when the SETTINGS were received/built (<= 2^31-1)");
   ("proto/streams/stream.rs", "new", 5%N, 2%N, Infallible "initial window sizes were validated when the SETTINGS were received/built (<= 2^31-1)");
-  ("proto/streams/stream.rs", "ref_dec", 3%N, 1%N, Residual "reference counting discipline (wp-store: C19)")
+  ("proto/streams/stream.rs", "ref_dec", 3%N, 1%N, ByTheorem "C19_no_panic")
 ].
 
 Fixpoint lookup (f fn : string) (k o : N) (l : list (string * string * N * N * cover)) : option cover :=
@@ -147,7 +147,8 @@ Definition cited (l : list (string * string * N * N * cover)) : list string :=
 (* the theorems ./check C08 audits (Print Assumptions) - kept in step with lib/props/c08.py *)
 Definition audited : list string :=
   ["C02_flow_code_never_panics"; "C03_no_panic"; "C05_counts_invariant"; "C10_never_panics"; "C11_decode_no_fuel";
-   "C12_parse_never_panics"; "C12_load_never_panics"; "C12_reader_never_panics"; "C14_no_assert"; "C14_poll2_order"; "C15_no_assert"].
+   "C12_parse_never_panics"; "C12_load_never_panics"; "C12_reader_never_panics"; "C14_no_assert"; "C14_poll2_order"; "C15_no_assert";
+   "C19_no_panic"; "C20_handover_never_panics"].
 
 Definition count (p : cover -> bool) : N :=
   N.of_nat (length (filter (fun s => match classify s with Some c => p c | None => false end) panic_sites)).
